@@ -19,20 +19,17 @@ JOBS = {}
 def job(rs, weak, prefix, maxview, equiv="{}", dump=0):
     JOBS[f"{rs}-{weak}-p{prefix}-v{maxview}" + ("-eq" if equiv != "{}" else "")] = (rs, weak, prefix, maxview, equiv, dump)
 for rs in ("chained", "simple"):
-    for p in (0, 2, 3):
-        job(rs, "nolock", p, p + 3)
+    job(rs, "nolock", 3, 6)          # (shorter prefixes leave no room for two conflicting three-chains: no script)
     job(rs, "regress", 4, 8)
     job(rs, "regress", 3, 7)
-    job(rs, "nolockupdate", 3, 6)
     job(rs, "commit2", 2, 5)
     job(rs, "commit2", 3, 6)
     job(rs, "nodirect", 2, 6)
     job(rs, "nodirect", 3, 7)
-    job(rs, "revote", 2, 5, "{3, 4, 5}")
-    job(rs, "revote", 0, 3, "{1, 2, 3}")
+    # (a model in which a replica may vote twice in a view needs equivocation in three consecutive views before Agreement
+    #  breaks: too large to exhaust; double votes are judged directly by P_C03 on the random adversary's equivocations)
     job(rs, "none", 0, 4, "{2}", 40)
     job(rs, "none", 3, 6, "{4}", 40)
-job("chained", "liveonly", 3, 6)
 
 def run_job(name, timeout=1500, workers=5):
     rs, weak, prefix, maxview, equiv, dump = JOBS[name]
